@@ -407,10 +407,15 @@ def battery():
     cases = [("ctrl NaN after 1", lin(-0.1), cnan_after(1.0), [1.0], 10.0), ("ctrl NaN exactly at a grid time", lin(-0.1), cnan_at(10.0 * 13 / 39), [1.0], 10.0),
              ("growth 0.5", lin(0.5), c0, [1.0], 50.0), ("growth 0.7", lin(0.7), c0, [1.0], 50.0), ("drift 1e9", drift(1e9), c0, [0.0], 50.0),
              ("stable", lin(-1.0), c0, [5.0], 10.0), ("growth 3", lin(3.0), c0, [1.0], 50.0), ("ctrl blows at 1", lin(-0.1), cblow(1.0), [1.0], 10.0),
-             ("ctrl blows at once", lin(-0.1), cblow(-1.0), [1.0], 10.0), ("decay check", lin(-2.0), c0, [3.0], 2.0)]
+             ("ctrl blows at once", lin(-0.1), cblow(-1.0), [1.0], 10.0), ("decay check", lin(-2.0), c0, [3.0], 2.0),
+             # a controller that is fine for the start state but out of range at every later evaluation: the last acceptable time stays 0 in every cycle
+             ("ctrl bad at every t > 0", lin(-0.1), cblow(0.0), [1.0], 10.0), ("ctrl bad at every t > 0, long horizon", lin(-0.1), cblow(0.0), [1.0], 50000.0),
+             # very few output rows on a slowly diverging system: the failure is only noticed while the rows are built
+             ("drift 9.99e9, two rows", drift(9.99e9), c0, [0.0], 50000.0, 2), ("drift 9.99e9, three rows", drift(9.99e9), c0, [0.0], 50000.0, 3)]
     probs = []
-    for name, eq, ct, s0, T in cases:
-        steps = 40
+    for case in cases:
+        name, eq, ct, s0, T = case[:5]
+        steps = case[5] if len(case) > 5 else 40
         res = run_ode(np.array(s0), eq, ct, None, 1, steps, T)
         if res.shape[0] == 1:
             if not (res[0, 0] == s0[0] and res[0, 1] == 1e100 and res[0, 2] == 0.0):
@@ -418,8 +423,8 @@ def battery():
             continue
         if res.shape[0] != steps or res[0, 0] != s0[0] or res[0, -1] != 0.0:
             probs.append(f"{name}: wrong shape/start {res.shape}")
-        if not np.all(np.diff(res[:, -1]) > 0) or res[-1, -1] > T:
-            probs.append(f"{name}: times not strictly increasing within the limit")
+        if not np.all(np.diff(res[:, -1]) > 0) or res[-1, -1] > T or res[-1, -1] <= 0:
+            probs.append(f"{name}: times not strictly increasing from 0 to a positive end within the limit (first {res[0, -1]}, last {res[-1, -1]})")
         if not np.all(np.isfinite(res)) or np.max(np.abs(res)) >= 1e10:
             probs.append(f"{name}: value outside (-1e10, 1e10): max |x| = {float(np.nanmax(np.abs(res))):.4g}")
         for r in range(res.shape[0]):
